@@ -189,7 +189,7 @@ def import_vol_mesh(file_name):
 
     # mesh files have the control points in u-row order format
     ctrlpts = []
-    for i in range(dim_w - 1):
+    for i in range(dim_w):
         ctrlpts += compatibility.flip_ctrlpts_u(ctrlpts_mesh[surf_cpts * i:surf_cpts * (i + 1)], dim_u, dim_v)
 
     # mesh files store control points in format (x, y, z, w)
